@@ -131,5 +131,6 @@ pub fn block_on<F: std::future::Future>(f: F) -> F::Output {
 
 /// silence the default panic message for expected panics (caught by catch_unwind)
 pub fn quiet_panics() {
+    if std::env::var("VERIF_LOUD").is_ok() { return; }
     std::panic::set_hook(Box::new(|_| {}));
 }
